@@ -70,7 +70,8 @@ class Gen:
         r = self.rng
         if d <= 0 or r.random() < 0.25:
             if getattr(self, 'has_list', False) and r.random() < 0.25:
-                return r.choice(['sum(xs)', 'xs[0]', 'xs[2]', 'len(xs)', 'sum([e * 2 for e in xs])', 'min(xs[0], xs[1])', 'sum([a * b for a, b in zip(xs, xs)])'])
+                return r.choice(['sum(xs)', 'xs[0]', 'xs[2]', 'len(xs)', 'sum([e * 2 for e in xs])', 'min(xs[0], xs[1])', 'sum([a * b for a, b in zip(xs, xs)])',
+                                 'sum([p + q * 10 for p in xs for q in xs])'])
             if vars_ and r.random() < 0.7:
                 return r.choice(vars_)
             return r.choice(['1', '2', '3', '7', 'fp.round(0.1)', 'fp.round(2.5)', 'fp.round(1e-3)', '10'])
@@ -111,6 +112,9 @@ class Gen:
         if op == 'fma':
             return f'fp.fma({a()}, {a()}, {a()})'
         if op == 'ifexpr':
+            if r.random() < 0.25:
+                # comparison chains: each link is a comparison of neighbours, nothing else (a != b != c says nothing of a and c)
+                return f'({a()} if {a()} {r.choice(["!=", "<", "<=", "=="])} {a()} {r.choice(["!=", "!=", "<", ">="])} {a()} else {a()})'
             return f'({a()} if {a()} {r.choice(["<", "<=", ">", "=="])} {a()} else {a()})'
         return f'{op}({a()}, {a()})'
 
@@ -123,6 +127,24 @@ class Gen:
             if depth > 0:
                 kinds += ['with', 'with', 'if', 'if2', 'if1', 'while', 'for', 'tuple']
             kind = r.choice(kinds)
+            if depth > 0 and getattr(self, 'has_list', False) and r.random() < 0.12:
+                kind = 'narrowsum'
+            if kind == 'narrowsum':
+                # a reduction under a context narrower than the elements it folds: the fold starts from the first element as it is
+                # (no rounded 0 + xs[0]), so a one-to-one translation must not round it either
+                q, v = self.fresh('q'), self.fresh()
+                text, prec, rnd = r.choice([c for c in CTXS if c[1] in ('(float 4 8)', 'binary16', '(float 6 16)', '(float 8 16)')])
+                self.nctx.add(text)
+                form = r.random()
+                if form < 0.5:
+                    self.lines.append(f'{pad}{q} = [e / 3 for e in xs]')
+                    src = q
+                else:
+                    src = 'xs'
+                self.lines.append(f'{pad}with {text}:')
+                self.lines.append(f'{pad}    {v} = {r.choice([f"sum({src})", f"sum({src}) + sum(xs)", f"min(sum({src}), 7)"])}')
+                vars_.append(v)
+                continue
             if kind == 'assign':
                 v = r.choice(vars_) if r.random() < 0.35 else self.fresh()
                 self.lines.append(f'{pad}{v} = {self.expr(vars_, 2, scope)}')
@@ -172,7 +194,11 @@ class Gen:
                 k = self.fresh('k')
                 v = r.choice(vars_)
                 self.lines.append(f'{pad}{k} = 0')
-                self.lines.append(f'{pad}while {k} < {r.choice([1, 2, 3])}:')
+                if r.random() < 0.06:
+                    # a condition that is itself a compound expression (let / if in the core): re-evaluated on every iteration
+                    self.lines.append(f'{pad}while min({k}, {k} + 1) < {r.choice([1, 2, 3])}:')
+                else:
+                    self.lines.append(f'{pad}while {k} < {r.choice([1, 2, 3])}:')
                 self.lines.append(f'{pad}    {v} = {self.expr(vars_, 2, scope)}')
                 self.lines.append(f'{pad}    {k} = {k} + 1')
             elif kind == 'for':
@@ -180,9 +206,15 @@ class Gen:
                 v = r.choice(vars_)
                 if getattr(self, 'has_list', False) and r.random() < 0.5:
                     self.lines.append(f'{pad}for {i} in xs:')
+                elif r.random() < 0.4:
+                    # start / stop / step forms: lengths that are not stop - start
+                    self.lines.append(f'{pad}for {i} in range({r.choice(["0, 7, 3", "1, 6, 2", "2, 5", "0, 5, 5", "3, 3", "1, 8, 3", "0, 4, 1"])}):')
                 else:
                     self.lines.append(f'{pad}for {i} in range({r.choice([1, 2, 3, 4])}):')
-                self.lines.append(f'{pad}    {v} = {self.expr(vars_ + [i], 2, scope)}')
+                if r.random() < 0.3:
+                    self.lines.append(f'{pad}    {v} = {v} + {i}')
+                else:
+                    self.lines.append(f'{pad}    {v} = {self.expr(vars_ + [i], 2, scope)}')
             elif kind == 'tuple':
                 a, b = self.fresh(), self.fresh()
                 self.lines.append(f'{pad}{a}, {b} = ({self.expr(vars_, 1, scope)}, {self.expr(vars_, 1, scope)})')
@@ -379,7 +411,10 @@ def shard(i: int, n: int, tier: str, seed: int) -> Result:
 
             def viol(route, problem, **more):
                 w = {'property': PROP, 'route': route, 'problem': problem, 'source': shown, 'core': core.sexp[:3000],
-                     'mechanism': {'route': route, 'kind': more.pop('kind', 'value')}}
+                     'mechanism': {'route': route, 'kind': more.pop('kind', 'value'),
+                                   # program shapes behind known findings (F79, F80): named so that only programs having them are excused
+                                   'multi_generator_comprehension': ' for p in xs for q in xs' in shown,
+                                   'compound_while_condition': 'while min(' in shown}}
                 w.update(more)
                 res.violate(w)
 
@@ -441,7 +476,7 @@ def shard(i: int, n: int, tier: str, seed: int) -> Result:
             for _ in range(ninputs):
                 args = [rng.choice(ARG_POOL), rng.choice(ARG_POOL)]
                 if g.has_list:
-                    args.append([rng.choice(ARG_POOL) for _ in range(3)])
+                    args.append([rng.choice(ARG_POOL) for _ in range(3)] if _ != 1 else [-0.0, -0.0, -0.0])
                 with DirectedOverflowWatch(fp) as watch:
                     r0 = genrun.call(f, args, timeout=8.0)
                 if r0[0] == 'timeout':
